@@ -119,12 +119,16 @@ def const_tu():
     return t
 
 
+LAG_KS = tuple(range(1, 11))      # lagrange_basis<K> instantiated
+LAG_SYM = (1, 2, 3, 4)             # ... proved for symbolic nodes (nf); the others: exact rational evaluation at sampled node sets
+
+
 def runtime_tu():
     t = '#include <cmath>\n#include <smooth/polynomial/basis.hpp>\n#include <array>\nusing namespace smooth;\n'
     for K in (1, 2, 3, 5, 10):
         for p in range(0, min(K + 1, 4) + 1):
             t += 'extern "C" void md_%d_%d(double u, double*o){ const auto m = monomial_derivative<%d>(u, %d); for (int k = 0; k <= %d; ++k) o[k] = m[0][k]; }\n' % (K, p, K, p, K)
-    for K in (1, 2, 3):
+    for K in LAG_KS:
         t += ('extern "C" void lag_%d(const double*ts, double*o){ std::array<double,%d> a; for (int i = 0; i < %d; ++i) a[i] = ts[i]; '
               'const auto m = lagrange_basis<%d>(a); for (int i = 0; i <= %d; ++i) for (int j = 0; j <= %d; ++j) o[i * %d + j] = m[i][j]; }\n'
               % (K, K + 1, K + 1, K, K, K, K + 1))
@@ -318,7 +322,7 @@ def run_runtime(tier="quick", seed=0):
                     prove_pairs(res, "%s/monomial_derivative<%d>(u,%d)/p%d" % (tag, K, p, k_), prs, None, lambda r: {"u": r.uniform(-2, 2)}, pv,
                                 (xt, "md_%d_%d" % (K, p), bufs), seed=seed)
             guarded(res, "%s/monomial_derivative<%d>(u,%d)" % (tag, K, p), go)
-    for K in (1, 2, 3):
+    for K in LAG_SYM:
         def go2(K=K):
             bufs = [("t", K + 1, "d"), ("o", (K + 1) ** 2, "d")]
             ts = vars_("t", K + 1)
